@@ -16,6 +16,7 @@ from typing import Any
 from sim import wire as W
 from sim.runworld import make_xknx
 from sim.world import Run
+from sim import e2e as E
 
 ID = "C14"
 LEVEL = "exploration"
@@ -29,7 +30,13 @@ REAL = ["xknx.cemi.CEMIHandler", "xknx.cemi.CEMIFrame codec", "xknx.management.M
         "xknx.core.TaskRegistry.background", "xknx.XKNX object"]
 STUB = ["KNXIPInterface (sim.runworld.StubInterface: planned send_cemi latency/outcome/confirmation)",
         "xknx.telegrams (recording asyncio.Queue subclass)", "loop (SimLoop)"]
-ASSUMPTIONS = ["concurrent sends share one confirmation event in the code; the statement allows that, so for overlapping "
+E2E_NOTE = ("whole-stack mode (1 run in 12): real XKNX.start() over a real UDP/TCP tunnel against the gateway + bus model of "
+            "sim/e2e.py with datagram loss / duplication / delay, gateway crashes and disconnects; this module's clauses "
+            "judged across the seams")
+
+REAL = REAL + ["whole-stack mode: " + ", ".join(E.REAL)]
+STUB = STUB + ["whole-stack mode: " + ", ".join(E.STUB)]
+ASSUMPTIONS = [E2E_NOTE, "concurrent sends share one confirmation event in the code; the statement allows that, so for overlapping "
                "sends only 'returned OK => a confirmation was handled after its hand-off' is judged",
                "a confirmation landing exactly at return+3s (same instant as the timeout) is unjudged"]
 
@@ -66,6 +73,9 @@ def build_frame(op: dict[str, Any]) -> bytes:
 
 
 def gen(seed: int, tier: str) -> dict[str, Any]:
+    if seed % 12 == 7:
+        # one run in 12: the same clauses across the seams, on the whole stack (sim/e2e.py)
+        return E.gen(seed, tier, "C14")
     rng = random.Random(seed)
     ops: list[dict[str, Any]] = []
     n_frames = rng.choice([0, 3, 8, 20, 40])
@@ -111,6 +121,10 @@ def gen(seed: int, tier: str) -> dict[str, Any]:
 
 
 def run(plan: dict[str, Any]) -> dict[str, Any]:
+    if plan["config"].get("mode") == "e2e":
+        R, obs = E.run(plan)
+        E.judge_c14(R, obs)
+        return E.finish(R, obs)
     from xknx.dpt import DPTArray
     from xknx.exceptions import CommunicationError, ConfirmationError
     from xknx.management import Management
